@@ -31,6 +31,12 @@ pub enum Call {
     /// internal: the generic PolyhedralProjection::inverse with an octant triangle (not one of the dodecahedron's), as the
     /// repository's own tests use it
     GenericInverse { x: f64, y: f64 },
+    /// two public calls in one logged step: cell_to_boundary(id, segments = 1) and then lonlat_to_cell of its k-th corner at `res`
+    /// (exact cell corners are where the lookup's search takes its rarely used branches)
+    LookupAtCorner { id: u64, k: u8, res: i32 },
+    /// internal: a5cell_contains_point on a malformed cell description (curve position out of range for its resolution, or an
+    /// absurd resolution); whatever it does - error or panic - it must not affect later calls
+    ContainsMalformed { kind: u8 },
 }
 
 #[derive(Clone, Debug, PartialEq)]
@@ -96,6 +102,8 @@ impl Call {
             Call::Forward { .. } => "forward",
             Call::Inverse { .. } => "inverse",
             Call::GenericInverse { .. } => "generic_inverse",
+            Call::ContainsMalformed { .. } => "contains_malformed",
+            Call::LookupAtCorner { .. } => "lonlat_to_cell",
         }
     }
 
@@ -117,6 +125,8 @@ impl Call {
             Call::Forward { theta, phi, face } => format!("forward {} {} {face}", fb(*theta), fb(*phi)),
             Call::Inverse { x, y, face } => format!("inverse {} {} {face}", fb(*x), fb(*y)),
             Call::GenericInverse { x, y } => format!("generic_inverse {} {}", fb(*x), fb(*y)),
+            Call::ContainsMalformed { kind } => format!("contains_malformed {kind}"),
+            Call::LookupAtCorner { id, k, res } => format!("lookup_at_corner {} {k} {res}", ub(*id)),
         }
     }
 
@@ -143,6 +153,8 @@ impl Call {
             "forward" => Call::Forward { theta: parse_fb(t.get(1)?)?, phi: parse_fb(t.get(2)?)?, face: t.get(3)?.parse().ok()? },
             "inverse" => Call::Inverse { x: parse_fb(t.get(1)?)?, y: parse_fb(t.get(2)?)?, face: t.get(3)?.parse().ok()? },
             "generic_inverse" => Call::GenericInverse { x: parse_fb(t.get(1)?)?, y: parse_fb(t.get(2)?)? },
+            "contains_malformed" => Call::ContainsMalformed { kind: t.get(1)?.parse().ok()? },
+            "lookup_at_corner" => Call::LookupAtCorner { id: parse_ub(t.get(1)?)?, k: t.get(2)?.parse().ok()?, res: t.get(3)?.parse().ok()? },
             _ => return None,
         })
     }
@@ -168,6 +180,21 @@ impl Call {
                 .forward(Spherical::new(Radians::new_unchecked(*theta), Radians::new_unchecked(*phi)), *face)
                 .map(|f| vec![f.x().to_bits(), f.y().to_bits()]),
             Call::Inverse { x, y, face } => DodecahedronProjection::get_thread_local().inverse(Face::new(*x, *y), *face).map(|s| vec![s.theta().get().to_bits(), s.phi().get().to_bits()]),
+            Call::LookupAtCorner { id, k, res } => a5::cell_to_boundary(*id, Some(CellToBoundaryOptions { closed_ring: false, segments: Some(1) })).and_then(|ring| {
+                if ring.is_empty() {
+                    return Ok(vec![0]);
+                }
+                let p = ring[*k as usize % ring.len()];
+                a5::lonlat_to_cell(p, *res).map(|x| vec![x])
+            }),
+            Call::ContainsMalformed { kind } => {
+                let cell = match kind {
+                    0 => a5::A5Cell { origin_id: 3, segment: 2, s: 1 << 40, resolution: 5 },
+                    1 => a5::A5Cell { origin_id: 3, segment: 2, s: 0, resolution: 2000 },
+                    _ => a5::A5Cell { origin_id: 200, segment: 9, s: 7, resolution: 4 },
+                };
+                a5::core::cell::a5cell_contains_point(&cell, LonLat::new(10.0, 20.0)).map(|v| vec![v.to_bits()])
+            }
             Call::GenericInverse { x, y } => {
                 use a5::coordinate_systems::{Cartesian, FaceTriangle, SphericalTriangle};
                 let ft = FaceTriangle::new(Face::new(0.0, 0.0), Face::new(1.0, 0.0), Face::new(0.0, 1.0));
@@ -238,10 +265,24 @@ pub const MAX_HONEST: u128 = 1 << 16;
 pub fn hostile_call(seed: u64, index: u64) -> Call {
     let mut rng = Rng::stream(seed, "C14", index);
     let rng = &mut rng;
-    match rng.below(14) {
+    match rng.below(16) {
         0 | 1 => {
             let (lon, lat) = gen::hostile_coord(rng);
             Call::Lookup { lon, lat, res: gen::hostile_res(rng) }
+        }
+        14 => {
+            // ordinary coordinates at the geometric loci (exact poles, seams, vertices, face centres, special meridians) with a
+            // valid resolution: what a debug assertion about a 'cannot happen' rounding case would trip over
+            thread_local! { static FRAME: gen::Frame = gen::Frame::new(); }
+            let class = *rng.pick(&gen::POINT_CLASSES);
+            let (lon, lat) = FRAME.with(|fr| gen::point(rng, fr, class));
+            Call::Lookup { lon, lat, res: rng.below(30) as i32 }
+        }
+        15 => {
+            let r = rng.below(30) as i32;
+            let c = gen::random_cell(rng, r);
+            let res = if rng.chance(0.7) { (r + rng.below(3) as i32 - 1).clamp(0, MAX_RES) } else { gen::hostile_res(rng) };
+            Call::LookupAtCorner { id: encode(c), k: rng.below(5) as u8, res }
         }
         2 => Call::CellToLonLat(hostile_ids(rng)),
         3 => {
@@ -481,7 +522,12 @@ pub fn validate(call: &Call, out: &Outcome) -> Vec<(&'static str, String)> {
                 bad.push(("C14.invalid_result", format!("get_res0_cells returned {} ids", v.len())));
             }
         }
-        Call::HexToU64(_) | Call::U64ToHex(_) | Call::Forward { .. } | Call::Inverse { .. } | Call::GenericInverse { .. } => {}
+        Call::HexToU64(_) | Call::U64ToHex(_) | Call::Forward { .. } | Call::Inverse { .. } | Call::GenericInverse { .. } | Call::ContainsMalformed { .. } => {}
+        Call::LookupAtCorner { id, res, .. } => {
+            if decode(*id).map(|c| c.res >= 0).unwrap_or(false) && in_range(*res) && *res >= 0 && canon_res(v[0]) != Some(*res) {
+                bad.push(("C14.invalid_result", format!("lonlat_to_cell(corner of {:#018x}, {res}) returned {:#018x}, which does not decode to resolution {res}", id, v[0])));
+            }
+        }
     }
     bad
 }
